@@ -960,7 +960,11 @@ fn c11(cx: &mut Ctx) {
         } else {
             (start, target, lose, irr, undo, None)
         };
-        let plan = DrawPlan { target, lose_rights_at: lose, irreversible_at: irr, undo_pct: undo, finish_terminal_from: fin };
+        // a few very long reversible histories (beyond 255 half-moves), queried sparsely
+        let very_long = i % 25 == 24;
+        let (target, undo, irr, query_every) = if very_long && !terminal { (250 + cx.rng.below(170), if cx.rng.chance(1, 2) { 0 } else { 20 }, None, 16) } else { (target, undo, irr, 1) };
+        if very_long && !terminal { cx.sink.count("plans_beyond_255_halfmoves"); }
+        let plan = DrawPlan { target, lose_rights_at: lose, irreversible_at: irr, undo_pct: undo, finish_terminal_from: fin, query_every };
         let acts = draw_program(&mut cx.rng, &start, &plan);
         if terminal { cx.sink.count("plans_finishing_by_mate_or_stalemate_at_boundary"); }
         let moves = acts.iter().filter(|a| matches!(a, ops::Act::M(_))).count();
@@ -1146,6 +1150,25 @@ fn c14(cx: &mut Ctx) {
         cx.sink.note_position(b);
         one(cx, b);
         count += 1;
+    }
+    // the last position of synthesized special-move scenarios (en passant available, promotions,
+    // double checks, the 18-entry positions)
+    let sc = cx.n(SCENARIOS) / 2;
+    let mut done = 0usize;
+    let mut tries = 0usize;
+    while done < sc && tries < sc * 40 {
+        tries += 1;
+        if let Some((root, forced)) = special_scenario(&mut cx.rng) {
+            let mut cur = root;
+            let mut ok = true;
+            for m in forced.iter() { match guard(|| cur.make_move_new(*m)) { Some(b) => cur = b, None => { ok = false; break; } } }
+            if !ok { continue; }
+            cx.sink.note_position(&cur);
+            cx.sink.count("special_scenarios");
+            one(cx, &cur);
+            done += 1;
+            count += 1;
+        }
     }
     while count < n {
         let root = cx.root();
